@@ -1132,6 +1132,14 @@ def gather_from_helpers(func_node: ast.FunctionDef, methods: typing.Dict[str, as
         if isinstance(x, ast.BinOp) and isinstance(x.op, (ast.BitOr, ast.Add)):
             l_, r_ = parts(x.left), parts(x.right)
             return None if l_ is None or r_ is None else l_ + r_
+        if isinstance(x, ast.Call) and ast.unparse(x.func) in ("itertools.chain", "chain") and x.args and not x.keywords:
+            out_ = []
+            for a_ in x.args:
+                p_ = parts(a_)
+                if p_ is None:
+                    return None
+                out_ += p_
+            return out_
         if isinstance(x, ast.Call) and isinstance(x.func, ast.Attribute) and isinstance(x.func.value, ast.Name) and x.func.value.id == "self" \
                 and x.func.attr.startswith("_") and not x.args and not x.keywords and x.func.attr in methods:
             return [x.func.attr]
@@ -1191,9 +1199,42 @@ def gather_from_helpers(func_node: ast.FunctionDef, methods: typing.Dict[str, as
             out.append(st)
         return None      # falls off the end without returning a collection
 
+    def gen_body(h_node) -> typing.Optional[typing.List[ast.stmt]]:
+        """a generator part: `yield v` is `acc.add(v)`, `yield from vs` pours vs, a bare early `return` becomes structure"""
+        stmts = _without_early_returns([st for st in copy.deepcopy(h_node).body if not (isinstance(st, ast.Expr) and isinstance(st.value, ast.Constant))])
+        if stmts is None:
+            return None
+
+        class Y(ast.NodeTransformer):
+            bad = False
+
+            def visit_Expr(self, node):
+                if isinstance(node.value, ast.Yield) and node.value.value is not None:
+                    return ast.Expr(value=ast.Call(func=ast.Attribute(value=ast.Name(id=acc, ctx=ast.Load()), attr="add", ctx=ast.Load()), args=[node.value.value], keywords=[]))
+                if isinstance(node.value, ast.YieldFrom):
+                    p_ = pour(node.value.value)
+                    if p_ is None:
+                        self.bad = True
+                        return node
+                    if len(p_) == 1:
+                        return p_[0]
+                    return ast.If(test=ast.Constant(True), body=p_, orelse=[])
+                return self.generic_visit(node)
+
+            def visit_FunctionDef(self, node):
+                return node
+        y = Y()
+        out_ = [y.visit(st) for st in stmts]
+        if y.bad or any(isinstance(n_, (ast.Yield, ast.YieldFrom)) for st in out_ for n_ in ast.walk(st)):
+            return None
+        return out_
+
     new_body: typing.List[ast.stmt] = [ast.Assign(targets=[ast.Name(id=acc, ctx=ast.Store())], value=ast.Call(func=ast.Name(id="set", ctx=ast.Load()), args=[], keywords=[]))]
     for h in hs:
-        hb = seq(copy.deepcopy(methods[h]).body)
+        if any(isinstance(n_, (ast.Yield, ast.YieldFrom)) for n_ in ast.walk(methods[h])):
+            hb = gen_body(methods[h])
+        else:
+            hb = seq(copy.deepcopy(methods[h]).body)
         if hb is None:
             return copy.deepcopy(func_node)
         new_body += hb
